@@ -765,7 +765,7 @@ class TvdFluxForm(_FluxForm):
     name = 'convectionTvdRHS/limited_flux_form'
     props = ('C05', 'C02', 'C01')
     coef = 'u'
-    uf_congruence = True
+    uf_congruence = False     # arguments of psi are identified by the exact normaliser (fvverif/normal.py)
 
     def term(self, w, k, phi):
         FL = sym_limiter(w)
